@@ -634,7 +634,10 @@ class Exec(Verifier):
 
     def with_exit(self, exits):
         for fname, v in reversed(exits):
-            con = self.reg.contract_for("ext", "with_exit:%s" % fname)
+            view = fname
+            if self.frame.contract is not None and fname in self.frame.contract.prefer_ext:
+                view = self.frame.contract.prefer_ext[fname]      # the same call-site view as the `open(...)` call itself
+            con = self.reg.contract_for("ext", "with_exit:%s" % view)
             if con is not None:
                 self.apply_contract(con, None, [v] if isinstance(v, V) else [], {})
 
